@@ -128,6 +128,24 @@ pub fn generate(prop: &str, tier: &str, seed: u64, rec: &mut Rec) {
         .ok()
         .and_then(|s| s.parse().ok())
         .unwrap_or(if thorough { 20 } else { 1 });
+    // dense native sweeps over sizes (oracle leg, see sweeps.rs); not under miri (VERIF_SCALE set there)
+    if std::env::var("VERIF_NO_SWEEPS").is_err() && !cfg!(miri) {
+        let sweeps: Vec<crate::sweeps::Sweep> = match prop {
+            "C01" | "C08" => vec![crate::sweeps::container_sizes(thorough)],
+            "C11" => vec![crate::sweeps::container_sizes(false), crate::sweeps::string_lengths(thorough)],
+            "C02" => vec![crate::sweeps::string_lengths(thorough)],
+            "C12" => vec![crate::sweeps::intern_lengths(thorough)],
+            _ => vec![],
+        };
+        for s in sweeps {
+            for _ in 0..s.points {
+                rec.bump(&format!("oracle:sweep:{}", s.name));
+            }
+            for f in s.failures {
+                rec.oracle_failures.push(format!("size sweep {}: {}", s.name, f));
+            }
+        }
+    }
     match prop {
         "C01" => {
             gen_c01(rec, &mut rng, 500 * scale, false);
@@ -379,7 +397,59 @@ fn sibling_history(rec: &mut Rec, n: usize, map: bool) {
     }
 }
 
+/// a map of `n` one-byte-valued entries: key `k` at the positions in `at` (values 1, 2, …), fillers `f<i>` elsewhere
+fn keyed_map(n: usize, k: &[u8], at: &[usize]) -> Vec<u8> {
+    let mut d = vec![0x80u8 + n as u8];
+    let mut hit = 0u8;
+    for i in 0..n {
+        if at.contains(&i) {
+            mp_str(&mut d, k);
+            hit += 1;
+            d.push(hit);
+        } else {
+            mp_str(&mut d, format!("f{}", i).as_bytes());
+            d.push(0x40 + i as u8);
+        }
+    }
+    d
+}
+
+/// lookups of one (interned) name in several objects where it sits at different positions, once and
+/// twice: the answer is the first match in *this* object, whatever was found where before
+fn lookup_position_cases(rec: &mut Rec, label: &str) {
+    let k = b"kk";
+    for p in 1..=3usize {
+        for q in 0..p {
+            for order in 0..2 {
+                rec.case(label);
+                rec.bump("doc:lookup-positions");
+                let a = rec.op(&format!("intern {}", hex0(k)));
+                let id: usize = a.strip_prefix("id ").and_then(|x| x.parse().ok()).unwrap_or(0);
+                let single = keyed_map(p + 1, k, &[p]);
+                let double = keyed_map(p + 2, k, &[q, p]);
+                let mut doc = vec![0x93u8];
+                let (first, second) = if order == 0 { (&single, &double) } else { (&double, &single) };
+                doc.extend_from_slice(first);
+                doc.extend_from_slice(second);
+                doc.extend_from_slice(&double);
+                rec.op(&format!("init {}", hex0(&doc)));
+                rec.op("root");
+                for i in 0..3 {
+                    let o = rec.op(&format!("idx h0 {}", i));
+                    if let Some(h) = o.split_whitespace().nth(1) {
+                        rec.op(&format!("iprop {} {}", h, id));
+                        rec.op(&format!("prop {} {}", h, hex0(k)));
+                        rec.op(&format!("aprop {} {}", h, hex0(k)));
+                        rec.op(&format!("iprop {} {}", h, id));
+                    }
+                }
+            }
+        }
+    }
+}
+
 fn gen_c01(rec: &mut Rec, rng: &mut Rng, cases: u64, malformed: bool) {
+    lookup_position_cases(rec, if malformed { "c08" } else { "c01" });
     // deeply nested values that have to be stepped over (valid for C01, cut off for C08)
     for &k in &[1usize, 64, 127, 128, 129, 300] {
         rec.case(if malformed { "c08" } else { "c01" });
@@ -394,7 +464,7 @@ fn gen_c01(rec: &mut Rec, rng: &mut Rng, cases: u64, malformed: bool) {
     // two sibling containers with more entries than a width boundary: the first is read completely,
     // then an early handle of the second is kept while every later entry is read, and used again
     {
-        let sizes: &[usize] = if cases > 3000 { &[257, 300, 1025, 1100, 2049, 4100] } else { &[257, 300, 1025, 1100] };
+        let sizes: &[usize] = if cases > 3000 { &[257, 300, 1025, 1100, 2049, 4100, 8200, 16400] } else { &[257, 300, 1025, 1100, 4100] };
         for &n in sizes {
             for map in [false, true] {
                 rec.case(if malformed { "c08" } else { "c01" });
@@ -1417,6 +1487,14 @@ fn gen_typed(rec: &mut Rec, rng: &mut Rng, cases: u64) {
             rec.op(&format!("serrt {} {}", ty, v));
         }
     }
+    // large values: natively only (oracle leg), see typed::big_roundtrips
+    let (n_big, fails) = typed::big_roundtrips(cases > 5000);
+    for _ in 0..n_big {
+        rec.bump("oracle:big-roundtrip");
+    }
+    for f in fails {
+        rec.oracle_failures.push(format!("typed round trip of a large value: {}", f));
+    }
     // mismatching (document, type) pairs: every write-side value against every type
     rec.case("c09mis");
     let mut docs: Vec<String> = Vec::new();
@@ -1726,6 +1804,23 @@ fn gen_invocations(rec: &mut Rec, rng: &mut Rng, cases: u64) {
         if rng.chance(1, 6) {
             // an earlier invocation with a zero-length input that still writes and logs
             invs[0].0 = Vec::new();
+        }
+        let mut interns = interns;
+        if rng.chance(1, 5) {
+            // every invocation looks the same interned name up; earlier inputs have it at position p,
+            // the last one has it twice, at q < p and at p: nothing remembered about where it was found may show
+            let k = b"kk".to_vec();
+            interns.push(k.clone());
+            let id = interns.len() - 1;
+            let p = rng.range(1, 4) as usize;
+            let q = rng.below(p as u64) as usize;
+            let n = invs.len();
+            for (j, (doc, acts)) in invs.iter_mut().enumerate() {
+                *doc = if j + 1 < n { keyed_map(p + 1, &k, &[p]) } else { keyed_map(p + 2, &k, &[q, p]) };
+                let mut pre = vec!["root".to_string(), format!("iprop h0 {}", id), format!("prop h0 {}", hex0(&k)), format!("idx h0 {}", p), format!("iprop h0 {}", id)];
+                pre.append(acts);
+                *acts = pre;
+            }
         }
         let early: Vec<String> = if rng.chance(1, 8) {
             // calls made on the thread before its first initialisation
